@@ -116,7 +116,7 @@ func uninterp[T any](name string, args ...any) T { var z T; return z }
 //@ mode bv
 //@ ensures [C03] ascii-letter: ch >= 'A' && ch <= 'Z' ==> r0 == ch + 32
 //@ ensures [C03] lower-fixed: ch >= 'a' && ch <= 'z' ==> r0 == ch
-//@ ensures [C03] local-sets-bit: r0 == ch|32
+//@ ensures [C03] sets-bit: r0 == ch|32
 
 //@ func isDecimal
 //@ props C03
@@ -204,3 +204,7 @@ func uninterp[T any](name string, args ...any) T { var z T; return z }
 //@ ensures [C04] stop-is-error: r0 < 0 ==> r0 == -1 && len(l.errors) > old(len(l.errors))
 //@ ensures [C03] range: r0 <= 16777215
 //@ ensures [C04] errors-only-grow: len(l.errors) >= old(len(l.errors))
+
+//@ func (*lexer).Lex
+//@ props C03 C04
+//@ modifies l.*, lval.str
